@@ -254,7 +254,7 @@ def default_cap(cfg, stim):
     return int(base)
 
 
-def run_core(cfg, stim, backend="fast", req=None, max_cycles=None, trace=None, min_cycles=0, tail=12):
+def run_core(cfg, stim, backend="fast", req=None, max_cycles=None, trace=None, min_cycles=0, tail=12, probe=None):
     dut, sim = get_sim(cfg, backend)
     loops = stim.get("loop_until") or [0] * len(dut.ports)
     masters = [NativeMaster(p, ops, name="p%d" % i, loop_until=lu) for i, (p, ops, lu) in enumerate(zip(dut.ports, stim["ports"], loops))]
@@ -270,6 +270,8 @@ def run_core(cfg, stim, backend="fast", req=None, max_cycles=None, trace=None, m
         w = dram.cycle(sim, t)
         for m in masters:
             w += m.cycle(sim, t)
+        if probe is not None:
+            probe(dut, sim, t)
         sim.step(w)
         t += 1
         if all(m.idle() and m.reads_out <= 0 for m in masters) and dram.quiescent():
@@ -282,6 +284,7 @@ def run_core(cfg, stim, backend="fast", req=None, max_cycles=None, trace=None, m
     r = CoreRun()
     r.cfg, r.stim, r.dut, r.sim, r.masters, r.dram, r.cycles, r.completed, r.cap = cfg, stim, dut, sim, masters, dram, t, done, cap
     r.am = addrmap_of(cfg)
+    r.backend = backend
     return r
 
 
